@@ -37,7 +37,54 @@ G = 'pcbasic/basic/display/graphics.py'
 WANT = {b'U': (0, -1), b'D': (0, 1), b'L': (-1, 0), b'R': (1, 0), b'E': (1, -1), b'F': (1, 1), b'G': (-1, 1), b'H': (-1, -1)}
 
 
+def _colour_in_mode_range(ctx, rep):
+    """The colour DRAW (and the next DRAW after another statement) plots with is an attribute of the screen mode: every value
+    stored in `_last_attr` comes from `_get_attr_index` (which clamps to the mode), is the mode's default attribute, or is 0.
+    A raw number ends in a ValueError when the pixel is written (C256), or plots an attribute the mode does not have."""
+    n = 0
+    for fn in ctx.idx.functions(G):
+        locals_ok = {}
+        for a in own_nodes(fn):
+            if isinstance(a, ast.Assign):
+                tg = a.targets[0]
+                v = norm(a.value)
+                names = [tg] if isinstance(tg, ast.Name) else (list(tg.elts) if isinstance(tg, ast.Tuple) else [])
+                for i, t in enumerate(names):
+                    if not isinstance(t, ast.Name):
+                        continue
+                    if isinstance(a.value, ast.Tuple) and len(a.value.elts) == len(names):
+                        vv = norm(a.value.elts[i])
+                    else:
+                        vv = v
+                    locals_ok.setdefault(t.id, []).append(vv.startswith('self._get_attr_index(') or vv in ('0', 'self._mode.attr'))
+        for a in own_nodes(fn):
+            if isinstance(a, ast.Assign) and norm(a.targets[0]) == 'self._last_attr':
+                n += 1
+                v = a.value
+                ok = norm(v).startswith('self._get_attr_index(') or norm(v) in ('0', 'self._mode.attr', 'None') \
+                    or (isinstance(v, ast.Name) and locals_ok.get(v.id) and all(locals_ok[v.id]))
+                params = [p_.arg for p_ in fn.args.args]
+                if not ok and isinstance(v, ast.Name) and v.id in params and v.id not in locals_ok:
+                    # a parameter: every caller in this module passes a converted value in that position
+                    k = params.index(v.id) - 1
+                    passed = []
+                    for caller in ctx.idx.functions(G):
+                        cl_ok = {}
+                        for a2 in own_nodes(caller):
+                            if isinstance(a2, ast.Assign) and isinstance(a2.targets[0], ast.Name):
+                                cl_ok.setdefault(a2.targets[0].id, []).append(norm(a2.value).startswith('self._get_attr_index('))
+                        for c in own_nodes(caller):
+                            if isinstance(c, ast.Call) and norm(c.func) == 'self.' + fn.name and len(c.args) > k:
+                                arg = c.args[k]
+                                passed.append(isinstance(arg, ast.Name) and bool(cl_ok.get(arg.id)) and all(cl_ok[arg.id]))
+                    ok = bool(passed) and all(passed)
+                rep.ob('colour.within-mode-range', '%s: %s' % (fn.name, short(a, 60)), ok,
+                       'the value stored as the drawing colour has not been brought into the range of the screen mode', ctx.where(a))
+    rep.floor('colour.within-mode-range', n, 8, 'stores to _last_attr')
+
+
 def check(ctx, rep):
+    _colour_in_mode_range(ctx, rep)
     dr = ctx.fn(G + ':Graphics._draw')
     fl = ctx.flow(dr)
     # the move branch
@@ -200,6 +247,8 @@ def variants(ctx):
         return lambda tree: f(mu.find_def(tree, f_name))
 
     return [
+        mu.Variant('draw-colour-stored-as-given', 'break', G,
+                   lambda tree: mu.replace_expr(mu.find_def(tree, 'Graphics._draw'), mu.text_is('self._get_attr_index(max(0, attr))'), 'attr'), expect='colour.within-mode-range'),
         Va('reset-keeps-draw-pen', 'break', G, in_fn('Graphics.reset', lambda fn: mu.remove_stmt(fn, mu.text_is('self._draw_current = None'))), expect='reset.draw-state'),
         Va('double-varptr-taken-for-a-name', 'break', 'pcbasic/basic/mlparser.py',
            lambda tree: mu.replace_expr(mu.find_def(tree, 'MLParser.parse_number'), mu.text_is('ord(c) > 8'), 'ord(c) >= 8'), expect='numbers.varptr'),
